@@ -133,8 +133,10 @@ class SRTWriter(BaseWriter):
             for node in caption.nodes:
                 new_content = self._recreate_line(new_content, node)
 
-            # Eliminate excessive line breaks
+            # Eliminate excessive line breaks; a blank line would end the cue
             new_content = new_content.strip()
+            while '\n\n' in new_content:
+                new_content = new_content.replace('\n\n', '\n')
 
             srt += f"{new_content}\n\n"
             count += 1
